@@ -743,11 +743,11 @@ func (c *CharSet) addCategory(categoryName string, negate, caseInsensitive bool)
 	}
 
 	if caseInsensitive && (categoryName == "Ll" || categoryName == "Lu" || categoryName == "Lt") {
-		// when RegexOptions.IgnoreCase is specified then {Ll} {Lu} and {Lt} cases should all match
-		c.addCategories(
-			Category{Cat: "Ll", Negate: negate},
-			Category{Cat: "Lu", Negate: negate},
-			Category{Cat: "Lt", Negate: negate})
+		// when RegexOptions.IgnoreCase is specified then {Ll} {Lu} and {Lt} cases should all match:
+		// the cased letters as ONE category, so that the negated form \P{Lu} is "not a cased
+		// letter" (three negated categories would be a union, i.e. every rune)
+		c.addCategories(Category{Cat: "LC", Negate: negate})
+		return
 	}
 	c.addCategories(Category{Cat: categoryName, Negate: negate})
 }
